@@ -396,7 +396,7 @@ impl ArchiveManager {
         file.flush()
             .map_err(|e| StorageError::Archive(format!("Failed to flush: {e}")))?;
 
-        // Check if file grew significantly and remap if needed
+        // Remap whenever the file size changed
         let new_size = self.get_file_size(&archive_path)?;
         let current_size = {
             let archive = self
@@ -407,17 +407,10 @@ impl ArchiveManager {
             archive.size
         };
 
-        // Remap if file grew by more than 64MB or doubled in size
-        let size_threshold = 64 * 1024 * 1024; // 64MB
-        let size_difference = new_size.saturating_sub(current_size);
-        #[allow(clippy::cast_precision_loss)]
-        let size_ratio = if current_size > 0 {
-            new_size as f64 / current_size as f64
-        } else {
-            f64::INFINITY
-        };
-
-        if size_difference > size_threshold || size_ratio > 2.0 {
+        // `read_raw` is bounded by the length of the mapping, so every entry
+        // written since the last remap would otherwise be unreadable
+        // ("Read beyond archive bounds", reported as a truncated read).
+        if new_size != current_size {
             debug!(
                 "Remapping archive {} due to size change: {} -> {} bytes",
                 id, current_size, new_size
